@@ -39,7 +39,8 @@ Inductive op :=
 | OPush (c : nat) (e : vexpr)        (* (channel-push c e) *)
 | OPop (c : nat)                     (* (setq got (channel-pop c)), logged *)
 | ORange (c : nat)                   (* (range (lambda (v) (setq got v) log) c) *)
-| OSelect (cs : list nat)            (* (select (c v (setq got v) log) ...) *)
+| OSelect (cs : list (option nat))   (* (select clause...): Some c = (c v (setq got v) log-with-tag-c);
+                                        None = ((time-after T) tv log-with-tag-99), T beyond the run: never ready *)
 | OClose (c : nat)                   (* (channel-close c) *)
 | OLoad (x : nat)                    (* (setq acc <cell x>), logged *)
 | OStore (x : nat) (e : zexpr)       (* (setf <cell x> e) *)
@@ -154,7 +155,8 @@ Definition exec (s : state) (i : nat) (r : routine) (r0 : routine) (o : op) (k :
   | OSelect cs =>
       match nth_error cs k with
       | None => None
-      | Some c =>
+      | Some None => None                                           (* the timeout clause: its timer has not fired *)
+      | Some (Some c) =>
           match nth_error (chs s) c with
           | None => None
           | Some ch => match take ch i with
